@@ -424,27 +424,35 @@ def takeFirst (f : Job → Bool) : List Job → Option (Job × List Job)
       | some (x, r) => some (x, j :: r)
       | none => none
 
-def minPrio (cfg : Cfg) (q : List Job) : Option Nat := (q.map (prioOf cfg)).min?
-def maxPrio (cfg : Cfg) (q : List Job) : Option Nat := (q.map (prioOf cfg)).max?
+/-- number of priorities of the harness' `PriorityQueue<_, _, StandardPriority, _, 5>` -/
+def NUM_PRIORITIES : Nat := 5
 
-def qPeek (cfg : Cfg) (q : List Job) : Option Job :=
-  match minPrio cfg q with
-  | some m => q.find? (fun j => prioOf cfg j == m)
-  | none => none
+/-- `for i in <order> { if let Some(r) = self.queues[i].pop_front() { return Some(r) } }` -/
+def popByPrio (cfg : Cfg) : List Nat → List Job → Option (Job × List Job)
+  | [], _ => none
+  | p :: ps, q =>
+    match takeFirst (fun j => prioOf cfg j == p) q with
+    | some r => some r
+    | none => popByPrio cfg ps q
 
-def qPopFront (cfg : Cfg) (q : List Job) : Option (Job × List Job) :=
-  match minPrio cfg q with
-  | some m => takeFirst (fun j => prioOf cfg j == m) q
-  | none => none
+def peekByPrio (cfg : Cfg) : List Nat → List Job → Option Job
+  | [], _ => none
+  | p :: ps, q =>
+    match q.find? (fun j => prioOf cfg j == p) with
+    | some r => some r
+    | none => peekByPrio cfg ps q
 
-def qDiscardOldest (cfg : Cfg) (q : List Job) : Option (Job × List Job) :=
-  match maxPrio cfg q with
-  | some m => takeFirst (fun j => prioOf cfg j == m) q
-  | none => none
+def prioUp : List Nat := [0, 1, 2, 3, 4]
+def prioDown : List Nat := [4, 3, 2, 1, 0]
+
+def qPeek (cfg : Cfg) (q : List Job) : Option Job := peekByPrio cfg prioUp q
+def qPopFront (cfg : Cfg) (q : List Job) : Option (Job × List Job) := popByPrio cfg prioUp q
+/-- `discard_oldest`: lowest priority first -/
+def qDiscardOldest (cfg : Cfg) (q : List Job) : Option (Job × List Job) := popByPrio cfg prioDown q
 
 /-- order in which `remove_expired_items` visits the jobs: by priority queue, then position -/
 def expiredInOrder (cfg : Cfg) (now : Nat) (q : List Job) : List Job :=
-  (List.range 5).flatMap fun p => q.filter fun j => prioOf cfg j == p && j.expired now
+  prioUp.flatMap fun p => q.filter fun j => prioOf cfg j == p && j.expired now
 
 /-! ## `FactoryState` -/
 
